@@ -182,6 +182,27 @@ Theorem c14_late_report_ignored :
 Proof. exact late_report_ignored. Qed.
 Print Assumptions c14_late_report_ignored.
 
+(* Snapshots (get_state held in memory) and restores (clone_from_state): whatever the live searcher and earlier
+   clones receive after a snapshot was taken, restoring that snapshot -- any number of times -- yields exactly the state
+   at the time of the snapshot: its observations and its pending entries, nothing reported later. (In the functional
+   model this is immediate; the implementation can break it by aliasing, which is what the driver's snapshot / restore
+   operations compare against this model.) *)
+Theorem c14_restore_is_snapshot :
+  forall saved s ops saved' s', sop_run (saved ++ [s], s) ops = Ok (saved', s') ->
+    sop_step (saved', s') (ORestore (length saved)) = Ok (saved', s).
+Proof. exact restore_is_snapshot. Qed.
+Print Assumptions c14_restore_is_snapshot.
+
+Example c14_snapshot_example :
+  (* trial 0 reports levels 1, 2; snapshot; level 3 is reported; restore; level 3 reported to the clone; restore again *)
+  let ops := [ORegister 0 1; ORegister 0 2; ORegister 0 3; OLabel 0 1 (1 # 2); OLabel 0 2 (1 # 4); OSnapshot;
+              OLabel 0 3 (1 # 8); ORestore 0; OLabel 0 3 (1 # 16); ORestore 0] in
+  match sop_run ([], s_empty) ops with
+  | Ok (_, s) => map fst (obs s) = [(0, 1); (0, 2)] /\ pend s = [(0, 3)]
+  | Error _ => False
+  end.
+Proof. vm_compute. split; reflexivity. Qed.
+
 Example c14_late_example :
   (* trial 0 is stopped at level 1, trial 1 fails; both send late reports; nothing changes in the searcher state *)
   let cfg := {| rung_levels := [1; 3]; max_t := 9; pol := AllData; myopic := true; sty := Stopping; maximize := false; reward_const := 1 |} in
